@@ -171,7 +171,15 @@ def run_check(tier, seed):
         names = [n for n in repos if n not in ("not_a_repo", "empty_repo", "ahead_subdir")]
         cmds = [["version"], ["version", "--output-format=pep440"], ["flow"], ["version", "--output-format=zerv"], ["version", "--schema=calver"], ["flow", "--schema=standard-base-prerelease-post"],
                 ["version", "--output-template=" + TS_TEMPLATES[1]], ["version", "--schema-ron=" + zgen.ron_schema(TS_SCHEMAS[0])], ["flow", "--output-format=zerv"]]
-        st = run.streams.setdefault("env_matrix_git", {"repos": len(names), "commands": len(cmds), "runs": 0})
+        # presentation settings a user may well have in ~/.gitconfig: none of them may reach zerv's reading of git's output
+        gitconfigs = []
+        for i, body in enumerate(["[column]\n\tui = always\n[color]\n\tui = always\n[core]\n\tabbrev = 5\n\tquotePath = true\n[log]\n\tdate = iso\n\tdecorate = full\n[format]\n\tpretty = fuller\n[status]\n\tshort = true\n\tbranch = true\n",
+                                  "[tag]\n\tsort = -version:refname\n[column]\n\ttag = always\n\tbranch = always\n[branch]\n\tsort = -committerdate\n[log]\n\tshowSignature = true\n\tabbrevCommit = true\n[pager]\n\ttag = cat\n\tlog = cat\n",
+                                  "[tag]\n\tsort = -creatordate\n[versionsort]\n\tsuffix = -rc\n[i18n]\n\tlogOutputEncoding = latin1\n[core]\n\tpager = cat\n\tabbrev = 40\n"]):
+            gp = os.path.join(root, f"gitconfig{i}")
+            open(gp, "w").write(body)
+            gitconfigs.append(gp)
+        st = run.streams.setdefault("env_matrix_git", {"repos": len(names), "commands": len(cmds), "runs": 0, "user_gitconfigs": len(gitconfigs)})
         jobs = []
         for n in names:
             for c in cmds:
@@ -184,12 +192,14 @@ def run_check(tier, seed):
                     e.pop("TZDIR", None)
                     jobs.append((n, c, repos[n], [], e))
                 jobs.append((n, c, repos[n], [], {"TZ": "UTC", "LANG": "C"}))                       # repetition
+                for g in gitconfigs:                                                              # the user's git configuration
+                    jobs.append((n, c, repos[n], [], {"TZ": "UTC", "LANG": "C", "ZV_GITCONFIG": g}))
 
         def oneg(j):
             n, c, cwd, extra, e = j
             env = dict(BASE_ENV)
             env.update(e)
-            env.update({"GIT_CONFIG_GLOBAL": "/dev/null", "GIT_CONFIG_SYSTEM": "/dev/null"})
+            env.update({"GIT_CONFIG_GLOBAL": env.pop("ZV_GITCONFIG", "/dev/null"), "GIT_CONFIG_SYSTEM": "/dev/null"})
             p = subprocess.run([ZERV] + c[:1] + extra + c[1:], stdin=subprocess.DEVNULL, stdout=subprocess.PIPE, stderr=subprocess.PIPE, env=env, cwd=cwd, timeout=120)
             return p.returncode, p.stdout, p.stderr
         with concurrent.futures.ThreadPoolExecutor(max_workers=NPROC) as ex:
